@@ -7,10 +7,11 @@ Decided clauses:
   * R-DIV   every variable divisor is excluded from being zero by a dominating test
   * R-SHIFT every variable shift amount is bounded below the operand width by a modulo/mask/guard,
             or listed as undecided; a guard that admits a boundary value making the amount >= width is a violation
+  * R-CARRY a carry/borrow computed by comparison is consumed (or or-ed) before it is overwritten
   * R-WIDTH (8/16-bit digits) no comparison/shift/division on an untruncated wrap-sensitive digit expression
 Not decided: numerical exactness of results.
 """
-from rules import driver, core, r_err, r_mpt, r_range, ts_bn
+from rules import driver, core, r_err, r_mpt, r_range, ts_bn, r_carry
 from rules.core import key, const_val, walk
 from props import common, fixtures
 
@@ -281,7 +282,7 @@ def run(rep, tier):
     us = driver.load_units(specs)
     rep.use_units(us)
     first = True
-    n_err = n_ts = n_div = n_sh = 0
+    n_err = n_ts = n_div = n_sh = n_carry = 0
     for (l, d, w) in cs:
         u = us[l]
         S, _ = r_err.status_functions(u)
@@ -294,6 +295,9 @@ def run(rep, tier):
             c = div_rule(rep, fn)
             e = shift_rule(rep, fn)
             width_rule(rep, fn, w)
+            cc = r_carry.check(rep, fn)
+            if first:
+                n_carry += cc
             if first:
                 n_err += a
                 n_ts += b
@@ -304,6 +308,7 @@ def run(rep, tier):
     rep.floor("bn_t locals tracked", n_ts, 50)
     rep.floor("variable divisions", n_div, 6)
     rep.floor("variable shifts", n_sh, 15)
+    rep.floor("carry/borrow stores", n_carry, 5)
     return driver.finish(
         rep, "other",
         "Static analysis of math/big_num.h in %d configurations (digit widths 8..128, compiler double-width vs portable "
@@ -322,6 +327,7 @@ def selftest():
             div_rule(rep, fn)
             shift_rule(rep, fn)
             width_rule(rep, fn, 8)
-    fixtures.expect(rep, ["fx_div_bad", "fx_div_bad_rewritten", "fx_shift_bad_boundary", "fx_width_bad"],
-                    ["fx_div_ok", "fx_div_ok_loop", "fx_div_ok_plus1", "fx_shift_ok_mod", "fx_shift_ok_guard", "fx_width_ok"],
+            r_carry.check(rep, fn)
+    fixtures.expect(rep, ["fx_div_bad", "fx_div_bad_rewritten", "fx_shift_bad_boundary", "fx_width_bad", "fx_carry_bad"],
+                    ["fx_div_ok", "fx_div_ok_loop", "fx_div_ok_plus1", "fx_shift_ok_mod", "fx_shift_ok_guard", "fx_width_ok", "fx_carry_ok"],
                     "R-DIV/R-SHIFT/R-WIDTH")
